@@ -57,6 +57,35 @@ func renderQuiet(tmpl string, ctx *plush.Context) R {
 	return r
 }
 
+// renderAgain: what a template renders does not depend on its parsed program having been
+// executed before. The text is parsed once and executed three times with fresh contexts from
+// mk; each execution must agree with first (the result of an ordinary render of the same text
+// with a context from the same maker). Used by oracles whose templates are deterministic.
+func renderAgain(b *core.B, src string, mk func() *plush.Context, first R, sig string) {
+	if first.Pan != nil {
+		return
+	}
+	var t *plush.Template
+	var err error
+	if pan := core.Guard(func() { t, err = plush.NewTemplate(src) }); pan != nil || err != nil {
+		return // the ordinary render has reported it
+	}
+	for k := 1; k <= 3; k++ {
+		var o R
+		ctx := mk()
+		o.Pan = core.Guard(func() { o.Out, o.Err = t.Exec(ctx) })
+		b.Count("later-executions-of-one-parsed-template")
+		if o.Pan != nil {
+			b.ViolateIn("later-execution|"+o.Pan.Sig(), src, o.Pan.Value)
+			return
+		}
+		if (o.Err == nil) != (first.Err == nil) || o.Err == nil && o.Out != first.Out {
+			b.ViolateIn("later-execution-differs|"+sig, src, fmt.Sprintf("ordinary render: %s\nexecution %d of one parsed template: %s", first, k, o))
+			return
+		}
+	}
+}
+
 func universal(b *core.B, r R) {
 	if r.Pan != nil {
 		b.Violate(r.Pan.Sig(), "panic: "+r.Pan.Value+"\n"+clipStack(r.Pan.Stack))
